@@ -25,6 +25,10 @@ add("C05","E1 enum","exploration",
     "Every shift form (232 forms incl. bit queries and bitwise operators: ct, _vartime, overflowing, wrapping, double-width, operators for u32/usize/i32, assigning; Limb, Uint<1,2,3,4,5,6,8,16>, Int, BoxedUint 1..=20 limbs) is applied with EVERY shift amount 0..=2*BITS+1, i32::MAX and u32::MAX to a value set containing every single bit, 2^j+-1 and runs of ones ending at every limb boundary; every bit index 0..=BITS+1 for bit tests; compared with an independent limb-vector shifter.",
     ASSUME + " Shift amounts and bit indices are exhaustive in the stated range.", "bounded-exhaustive enumeration (exhaustive in the shift amount / bit index, shape-exhaustive in the value) on the real code against an independent reference", "DESIGN.md §3.C05")
 
+add("C06","E1 enum","exploration",
+    "Every equality/ordering predicate (ct_eq/ct_lt/ct_gt, Eq/Ord/PartialOrd, cmp_vartime, eq_vartime, zero/one/odd/even tests, comparisons with Odd/NonZero wrappers; Limb, Uint<1,2,3,4,8,16>, Int, BoxedUint pairs of independent precision incl. zero-padded equal values) on complete pair products is compared with the mathematical (BigUint / two's-complement) order; a == b must imply equal hashes under two hashers; every selector/assign/swap/negate with both choice values must return the chosen operand bit for bit; ConstCtOption is_some/unwrap_or.",
+    ASSUME, "bounded-exhaustive enumeration of operand pairs x predicates on the real code against a BigUint order oracle", "DESIGN.md §3.C06")
+
 NOT_YET = {}
 ALL = [f"C{i:02d}" for i in range(1,21)]
 import os, sys
